@@ -88,6 +88,8 @@ class CarryAnalysis:
             if e.id in env:
                 return env[e.id]
             raise AnalysisError(f"{self.fi.qualname}:{e.lineno}: value of {e.id} not tracked")
+        if isinstance(e, ast.Attribute) and ast.unparse(e) in env:
+            return env[ast.unparse(e)]
         if isinstance(e, ast.UnaryOp) and isinstance(e.op, ast.Invert):
             a = self.iv(e.operand, env)
             return Iv(-a.hi - 1, -a.lo - 1)
@@ -236,3 +238,10 @@ class CarryAnalysis:
             return
         if isinstance(s, (ast.Return, ast.Expr)):
             return
+
+
+def expr_interval(fi, expr, env, fold=None) -> Iv:
+    """interval of an integer expression of function fi under env (names / dotted attribute texts -> Iv)"""
+    a = CarryAnalysis.__new__(CarryAnalysis)
+    a.fi, a.folder, a.events, a.acc = fi, fold, [], None
+    return a.iv(expr, env)
